@@ -302,8 +302,14 @@ def _tree():
         'pkg/ext.pyx': b'cdef int x\n',
         'pkg/py': b'named py\n',
         'pkg/sub/x.pyw.orig': b'orig\n',
+        'latin.py': b'# -*- coding: latin-1 -*-\n# caf\xe9\nname = "\xe9\xe8\xe0\xfc"\n',
+        'pkg/sub/cp.pyw': b'#!/usr/bin/python\n# vim: set fileencoding=cp1252 :\nprice = "\x80 5"\n',
+        # names that are legal file names and also patterns / expansions for someone else
+        'h/[id].py': b'# bracket\nh1 = 1\n', 'h/*.py': b'# star\nh2 = 2\n', 'h/?.py': b'# question\nh3 = 3\n', 'h/i.py': b'# i\nh4 = 4\n', 'h/d.py': b'# d\nh5 = 5\n',
+        'h/~x.py': b'# tilde\nh6 = 6\n', 'h/$one.py': b'# dollar\nh7 = 7\n', 'h/a b.py': b'# blank\nh8 = 8\n', 'h/-.py': b'# dash\nh9 = 9\n',
     }
-    dirs = {'pkg': [('pkg', ['sub', 'link'], ['a.py', 'notes.txt', 'stub.pyi', 'b.pyw', 'data.pyc', 'ext.pyx', 'mod.py.bak', 'py'], False), ('pkg/sub', [], ['c.py', 'README', 'x.pyw.orig'], False), ('pkg/link', [], ['d.py'], True)]}
+    dirs = {'pkg': [('pkg', ['sub', 'link'], ['a.py', 'notes.txt', 'stub.pyi', 'b.pyw', 'data.pyc', 'ext.pyx', 'mod.py.bak', 'py'], False), ('pkg/sub', [], ['c.py', 'README', 'x.pyw.orig', 'cp.pyw'], False), ('pkg/link', [], ['d.py'], True)],
+            'h': [('h', [], ['[id].py', '*.py', '?.py', 'i.py', 'd.py', '~x.py', '$one.py', 'a b.py', '-.py'], False)]}
     return files, dirs
 
 
@@ -332,6 +338,12 @@ def mode_scenarios(tier):
         ('two files --in-place', ['one.py', 'two.py'], None, True),
         ('directory --in-place', ['pkg'], None, True),
         ('file, directory, file --in-place', ['two.py', 'pkg', 'one.py'], None, True),
+        ('file with a latin-1 cookie to stdout', ['latin.py'], None, False),
+        ('file with a latin-1 cookie to --output', ['latin.py'], 'out.py', False),
+        ('files with latin-1 and cp1252 cookies --in-place', ['latin.py', 'pkg/sub/cp.pyw'], None, True),
+        ('files whose names hold pattern characters --in-place', ['h/[id].py', 'h/*.py', 'h/?.py'], None, True),
+        ('files whose names hold ~ $ blank - --in-place', ['h/~x.py', 'h/$one.py', 'h/a b.py', 'h/-.py'], None, True),
+        ('file whose name is a pattern to stdout', ['h/[id].py'], None, False),
     ]
     out = []
     for (mlabel, paths, output, in_place) in modes:
@@ -426,7 +438,10 @@ def run_modes(model, tier):
              ('\U0001f600', b'abcd'), ('\U0001f600', b'abc'), ('x' * 40, b'y' * 39), ('x' * 39, b'y' * 40),
              # line-end conventions, BOM, cookie: what is written is the answer as it is, whatever the source looked like
              ('a=1\nb=2\nc=3', b'a=1\r\nb=2\r\nc=3'), ('a=1\nb=2\nc=3', b'a=1\r\nb=2\nc=3\n'), ('a=1\nb=2', b'a=1\rb=2\r'), ('a\nb\nc\nd', b'a\r\nb\r\nc\r\nd'),
-             ('x=1', b'\xef\xbb\xbfx=1'), ('x="\xe9"', b'# -*- coding: latin-1 -*-\nx="\xe9"\n'), ('x="\xe9"', b'\xef\xbb\xbfx = "\xc3\xa9"\n')]
+             ('x=1', b'\xef\xbb\xbfx=1'), ('x="\xe9"', b'# -*- coding: latin-1 -*-\nx="\xe9"\n'), ('x="\xe9"', b'\xef\xbb\xbfx = "\xc3\xa9"\n'),
+             # sources in a declared single-byte encoding whose minified form (UTF-8) is not smaller: the bytes that were read are what is passed through
+             ('x="\xe9\xe8\xe0\xfc\xf6\xe4\xdf\xe7"#....', b'# coding: latin-1\nx="\xe9\xe8\xe0\xfc\xf6\xe4\xdf\xe7"\n'), ('p="\u20ac\u20ac\u20ac\u20ac\u20ac\u20ac\u20ac\u20ac"', b'# coding: cp1252\np="\x80\x80\x80\x80\x80\x80\x80\x80"\n'),
+             ('y="\xe9"*2#.......................', b'#!/bin/sh\n# -*- coding: iso-8859-15 -*-\ny="\xe9"*2\n'), ('z="\xe9\xe9\xe9\xe9\xe9\xe9\xe9\xe9\xe9\xe9\xe9\xe9\xe9"', b'\xef\xbb\xbf# coding: utf-8\nz="' + '\xe9'.encode('utf-8') * 13 + b'"')]
     for override in (None, '', '1'):
         for (text, source) in cases:
             sc = clirun.Scenario(['-'], stdin=source, env=({OVERRIDE: override} if override is not None else {}), answers={source: ('ok', text)})
